@@ -61,6 +61,11 @@ ChgRT ==
   /\ Chk("C18", "compressed-change-bytes-round-trip", "comp_ok" \in DOMAIN E /\ E.comp_ok)
   /\ Chk("C18", "decode-and-re-encode-gives-the-same-hash", "reenc_ok" \in DOMAIN E /\ E.reenc_ok)
 
+BundleRT ==
+  /\ E.ev = "bundlert"
+  /\ Chk("C18", "bundle-gives-back-byte-identical-changes", E.res = "ok" /\ E.mem_ok /\ E.bytes_ok)
+  /\ Chk("C18", "loading-a-bundle-equals-applying-its-changes", E.res = "ok" /\ E.load_ok)
+
 IdRT ==
   /\ E.ev = "idrt"
   /\ Chk("C19", "ids-cursors-actors-hashes-round-trip", Len(E.bad) = 0)
@@ -99,9 +104,9 @@ Cli ==
   /\ Chk("C33", "cli-import-and-export-succeed", E.res = "ok")
   /\ Chk("C33", "exported-json-equals-imported-json-with-number-kinds", E.same)
 
-Other == E.ev \notin {"cli", "bloomvec", "bloomset", "chgrt", "idrt", "syncrt", "wire", "wirebad", "hexbad", "hexagg"}
+Other == E.ev \notin {"bundlert", "cli", "bloomvec", "bloomset", "chgrt", "idrt", "syncrt", "wire", "wirebad", "hexbad", "hexagg"}
 
-Step == l <= Len(Rec) /\ l' = l + 1 /\ (BloomVec \/ BloomSet \/ ChgRT \/ IdRT \/ SyncRT \/ WireAgg \/ WireBad \/ HexBad \/ HexAgg \/ Cli \/ Other)
+Step == l <= Len(Rec) /\ l' = l + 1 /\ (BloomVec \/ BloomSet \/ ChgRT \/ BundleRT \/ IdRT \/ SyncRT \/ WireAgg \/ WireBad \/ HexBad \/ HexAgg \/ Cli \/ Other)
 Init == l = 1
 Spec == Init /\ [][Step]_l
 
